@@ -1,5 +1,40 @@
+//! Serialization monitors: C09 (canonical round trips at the advertised size, unique field
+//! encodings), C10 (checked deserialization yields only valid elements and never panics), C18
+//! (container and derive-macro serializations).
 use monitor::*;
+use std::time::Instant;
+
+mod alloc;
+mod c09;
+mod c10;
+mod c18;
+mod cad;
+mod common;
+mod enc;
+mod fad;
+mod gad;
+mod toy;
+mod child;
+mod io;
+mod probe;
+mod tv;
+
+#[cfg(not(miri))]
+#[global_allocator]
+static GLOBAL: alloc::MonAlloc = alloc::MonAlloc;
+
 fn main() {
+    if std::env::args().nth(1).as_deref() == Some("--child-deser") {
+        child::child_main(&c18::child_probe);
+    }
     let args = Args::parse();
-    panic!("mon_ser does not serve property {} yet", args.prop);
+    let t0 = Instant::now();
+    let (items, rule): (Vec<Item>, &str) = match args.prop.as_str() {
+        "C09" => (c09::items(&args), c09::RULE),
+        "C10" => (c10::items(&args), c10::RULE),
+        "C18" => (c18::items(&args), c18::RULE),
+        p => panic!("mon_ser does not serve property {p}"),
+    };
+    let rep = run_items(&args, items);
+    finish(&args, "mon_ser", rule, rep, t0)
 }
